@@ -881,6 +881,30 @@ class Interp:
         pushed_ = 0
         for g in gens:
             it = self.expr(g.iter)
+            if kind == "list" and len(gens) == 1 and not g.ifs and self.unroll and len(elts) == 1:
+                # a comprehension over a literal sequence (or a zip of literal sequences): a list with one entry per item
+                items = None
+                if it[0] in ("list", "tuple") and 0 < len(it[1]) <= self.MAX_UNROLL:
+                    items = list(it[1])
+                elif it[0] == "call" and it[1] == "builtins.zip" and it[2] and not it[3] and all(a[0] in ("list", "tuple") for a in it[2]) \
+                        and len({len(a[1]) for a in it[2]}) == 1 and 0 < len(it[2][0][1]) <= self.MAX_UNROLL:
+                    items = [("tuple", tuple(a[1][k] for a in it[2])) for k in range(len(it[2][0][1]))]
+                if items is not None:
+                    out = []
+                    for item in items:
+                        if isinstance(g.target, ast.Name):
+                            self.env[g.target.id] = item
+                        elif isinstance(g.target, (ast.Tuple, ast.List)) and item[0] in ("tuple", "list") and len(item[1]) == len(g.target.elts) \
+                                and all(isinstance(e, ast.Name) for e in g.target.elts):
+                            for e, v in zip(g.target.elts, item[1]):
+                                self.env[e.id] = v
+                        else:
+                            out = None
+                            break
+                        out.append(self.expr(elts[0]))
+                    self.env = dict(saved)
+                    if out is not None:
+                        return ("list", tuple(out))
             tgt_names = [x.id for x in ast.walk(g.target) if isinstance(x, ast.Name)]
             cv = ("cvar", uid, ast.unparse(g.target))
             if isinstance(g.target, ast.Name):
